@@ -16,3 +16,14 @@ Theorem C01_example :
   end.
 Proof. vm_compute. auto. Qed.
 Print Assumptions C01_example.
+
+(* every route calculateSingle returns — departure and arrival queries, with the router asked (fresh) or
+   with rows kept from an earlier calculation, with or without excluded lines — is an executable
+   itinerary: reverse-scan invariant, rebuild loop, the four clean-up rewrites and the emission loop *)
+From TrV Require Import Proofs.RouteValid.
+Theorem C01_single_route_valid : forall d s p acc egr fresh r used,
+  wf_data_b d = true -> wf_tables_b d p acc egr = true -> wf_params_b p = true ->
+  calc_single d (conn_set d s) p acc egr fresh = Ok (r, used) ->
+  valid_itinerary_b d s p acc egr r = true.
+Proof. exact calc_single_valid. Qed.
+Print Assumptions C01_single_route_valid.
